@@ -89,16 +89,28 @@ def run_case(ctx, name, params):
     idx_of = {}
     scripts_all = list(scripts)
 
+    box_after = {}          # call number -> the box declared when that call ended (the objective may re-declare it, see below)
+    redeclare = {"on": False, "left": 0}
+
     def script(call_no, vec, individual):
         d = idx_of[individual.id]
         k = attempts.get(individual.id, 0)
         attempts[individual.id] = k + 1
         s = scripts_all[d]
+        exc = None
         if k < len(s):
             ch = s[k]
             exc = (TRANSIENT.get(ch) or OTHER[ch])("scripted failure %s attempt %d of design %d" % (ch, k + 1, d))
-            return exc
-        return None
+            if redeclare["on"] and redeclare["left"] > 0 and ch in TRANSIENT:
+                # a trust-region style objective: before it gives up on this point it re-declares the search region (a new
+                # parameter list); the replacement is "freshly sampled inside the bounds" -- the ones declared at that moment
+                redeclare["left"] -= 1
+                nb_ = gen.boxes(r, n, r.choice(["unit", "mixed", "neg", "asym", "offset"]))
+                p.parameters = [{"name": "x%d" % i, "bounds": list(b)} for i, b in enumerate(nb_)]
+                cur_box[0] = nb_
+                ctx.count("search_region_redeclared_inside_a_failing_objective_call")
+        box_after[call_no] = cur_box[0]
+        return exc
     S = None
     eg = None
     if procs > 1:
@@ -171,6 +183,10 @@ def run_case(ctx, name, params):
             ctx.count("batches_after_bounds_edited_in_place")
         bxs = nb
         mids[:] = [lb + (ub - lb) / 2 for lb, ub in bxs]
+    cur_box = [bxs]
+    if procs == 1 and not iv_mode and not constrained and r.random() < 0.15:
+        redeclare["on"] = True
+        redeclare["left"] = r.randint(1, 2)
     batch = []
     for d in range(len(scripts)):
         ind = Individual([r.uniform(lb, ub) for lb, ub in bxs])
@@ -277,11 +293,12 @@ def run_case(ctx, name, params):
         exp_failed_total += k
         # every failed attempt's vector is logged in failed; consecutive attempts use new in-box vectors
         for a, c in enumerate(calls):
-            t = [1e-12 + 2 * abs(ub) * 2.3e-16 + 2 * abs(lb) * 2.3e-16 for lb, ub in bxs]
             if a > 0:
+                bx_ = box_after.get(calls[a - 1].n, bxs)      # the box in force when the previous attempt had failed
+                t = [1e-12 + 2 * abs(ub) * 2.3e-16 + 2 * abs(lb) * 2.3e-16 for lb, ub in bx_]
                 ctx.count("resample_checks")
-                if any(not (lb - tt <= x <= ub + tt) for x, (lb, ub), tt in zip(c.vector, bxs, t)):
-                    ctx.violation("retry/replacement_out_of_bounds", "replacement design outside the box", wit({"vector": c.vector, "bounds": bxs}))
+                if any(not (lb - tt <= x <= ub + tt) for x, (lb, ub), tt in zip(c.vector, bx_, t)):
+                    ctx.violation("retry/replacement_out_of_bounds", "replacement design outside the box", wit({"vector": c.vector, "bounds": bx_}))
                     return
                 if list(c.vector) == list(calls[a - 1].vector):
                     ctx.violation("retry/not_resampled", "retry used the same vector as the failed attempt", wit({"vector": c.vector}))
